@@ -25,13 +25,16 @@ open KG KG.Model.Lifecycle KG.Spec.Lifecycle KG.Lemmas.Lifecycle
 /-- Regenerated from /repo on every run (tools/extract/c15 → `KG.Gen.C15`): cluster deletion goes through the stopping
     delete (`DeleteForServerNames` → `DeleteWithStop` → `doDelete(name, true)` → `Stop` → `cancel`), alias removal through
     the plain one, endpoint contexts derive from the cluster's, removed endpoints leave the map and are cancelled,
-    health-check loops run under (and watch) a context derived from the endpoint's, the dispatcher's goroutine cancels
+    health-check loops run under (and watch) a context derived from the `ctx` argument of `EnsureGatewayHealthCheck`,
+    and **both** of its call sites (new endpoint; known endpoint being disabled / re-enabled) hand over the endpoint's
+    own context, the dispatcher's goroutine cancels
     the proxied request when the endpoint's context ends. The model `KG.Model.Lifecycle` is the mirror of exactly this
     shape; if a fact changes, this obligation fails. -/
 theorem c15_source_shape :
     Gen.C15.deleteForServerNamesStops = true ∧ Gen.C15.aliasDropStops = false ∧
     Gen.C15.endpointCtxChildOfCluster = true ∧ Gen.C15.removedEndpointLeavesMap = true ∧
     Gen.C15.removedEndpointCancelled = true ∧ Gen.C15.healthCheckCtxChildOfEndpoint = true ∧
+    Gen.C15.hcCtxAtCreateIsEndpoint = true ∧ Gen.C15.hcCtxAtUpdateIsEndpoint = true ∧
     Gen.C15.dispatcherWatchesEndpoint = true := by decide
 
 /-! ## every reachable state -/
@@ -79,10 +82,7 @@ theorem judge_of_inv (st : State) (hI : Inv st) (rids : List Nat) : judge (obser
       | false => exact Or.inl rfl
       | true =>
         right
-        obtain ⟨s, hs, hc⟩ := (done_iff _ _).1 hd
-        have : done st.cancels (e0.hcChain (e0.hcGen - 1)) = true :=
-          (done_iff _ _).2 ⟨s, by simp only [Ep.chain_eq, Ep.hcChain_eq] at hs ⊢; exact List.mem_cons_of_mem _ hs, hc⟩
-        simp [hcLive, this]
+        exact hI.e.hcLive_false he0 _ hd
     · intro c hc
       obtain ⟨o, _, hco⟩ := List.mem_flatMap.1 hc
       unfold obsCluster at hco
@@ -177,16 +177,16 @@ theorem c15_cluster_cancelled :
     (∀ ch : Chain, Sid.cl o ∈ ch → done (deleteSpec st name).cancels ch = true) ∧
     (∀ e, e ∈ (deleteSpec st name).eps → e.owner = o →
         done (deleteSpec st name).cancels e.chain = true ∧
-        (∀ g, done (deleteSpec st name).cancels (e.hcChain g) = true) ∧
+        (∀ g, g < e.hcGen → done (deleteSpec st name).cancels (e.hcChain g) = true) ∧
         hcLive (deleteSpec st name).cancels e = false ∧
         (∀ r, reqDone (deleteSpec st name) r e.id o = true)) := by
   have h2 := (deleteSpec_existing st name hI.n ho hc hcn).2.1
+  have hI' : Inv (deleteSpec st name) := deleteSpec_inv st name hI
   refine ⟨h2, fun ch hm => done_of_cluster h2 ch hm, ?_⟩
-  intro e _ hown
-  refine ⟨done_of_cluster h2 _ (by simp [Ep.chain_eq, hown]), fun g => done_of_cluster h2 _ (by simp [Ep.hcChain_eq, hown]), ?_,
+  intro e he hown
+  have hch : done (deleteSpec st name).cancels e.chain = true := done_of_cluster h2 _ (by simp [Ep.chain_eq, hown])
+  refine ⟨hch, fun g hg => done_of_cluster h2 _ (by rw [hI'.e.hcChain_eq he hg]; simp [hown]), hI'.e.hcLive_false he _ hch,
     fun r => done_of_cluster h2 _ (by simp [reqChain_eq])⟩
-  have : done (deleteSpec st name).cancels (e.hcChain (e.hcGen - 1)) = true := done_of_cluster h2 _ (by simp [Ep.hcChain_eq, hown])
-  simp [hcLive, this]
 
 /-- frame: only that cluster's scope is cancelled; every context that is not below it keeps its status; endpoints,
     cluster objects and requests are untouched; the names of every other cluster resolve as before -/
@@ -216,19 +216,24 @@ theorem c15_cluster_frame :
   · exact Or.inl
 
 /-- the other clusters' endpoints, health checks and requests: exactly as before -/
-theorem c15_cluster_frame_endpoints (e : Ep) (hown : e.owner ≠ o) :
+theorem c15_cluster_frame_endpoints (e : Ep) (he : e ∈ st.eps) (hown : e.owner ≠ o) :
     done (deleteSpec st name).cancels e.chain = done st.cancels e.chain ∧
-    (∀ g, done (deleteSpec st name).cancels (e.hcChain g) = done st.cancels (e.hcChain g)) ∧
+    (∀ g, g < e.hcGen → done (deleteSpec st name).cancels (e.hcChain g) = done st.cancels (e.hcChain g)) ∧
     hcLive (deleteSpec st name).cancels e = hcLive st.cancels e ∧
     (∀ r, reqDone (deleteSpec st name) r e.id e.owner = reqDone st r e.id e.owner) ∧
     (∀ o2, pickable (deleteSpec st name) o2 = pickable st o2) := by
   obtain ⟨_, hf, heps, _⟩ := c15_cluster_frame st hI name o c ho hc hcn
   have hne : Sid.cl o ≠ Sid.cl e.owner := fun h => hown (by cases h; rfl)
   have h1 := hf e.chain (by simp [Ep.chain_eq, hne])
-  have h2 : ∀ g, done (deleteSpec st name).cancels (e.hcChain g) = done st.cancels (e.hcChain g) :=
-    fun g => hf _ (by simp [Ep.hcChain_eq, hne])
+  have h2 : ∀ g, g < e.hcGen → done (deleteSpec st name).cancels (e.hcChain g) = done st.cancels (e.hcChain g) :=
+    fun g hg => hf _ (by rw [hI.e.hcChain_eq he hg]; simp [hne])
   refine ⟨h1, h2, ?_, fun r => hf _ (by simp [reqChain_eq, hne]), fun o2 => by unfold pickable; rw [heps]⟩
-  unfold hcLive; rw [h2]
+  unfold hcLive
+  cases hon : e.hcOn with
+  | false => rfl
+  | true =>
+    have hpos := hI.e.hc_pos e he hon
+    rw [h2 _ (by omega)]
 
 /-- and it stays that way: after any continuation no name resolves to the deleted cluster object and everything
     below it is done (a request that resolved the cluster *before* the delete and pops an endpoint only *after* it
@@ -286,7 +291,7 @@ theorem c15_endpoint_removed (e : Ep) (he : e ∈ st.eps) (hown : e.owner = o) (
     (∀ o2 x, x ∈ pickable (applySpec st sp) o2 → x.id ≠ e.id) ∧
     Sid.ep e.id ∈ (applySpec st sp).cancels ∧
     done (applySpec st sp).cancels e.chain = true ∧
-    (∀ g, done (applySpec st sp).cancels (e.hcChain g) = true) ∧
+    (∀ g, g < e.hcGen → done (applySpec st sp).cancels (e.hcChain g) = true) ∧
     hcLive (applySpec st sp).cancels e = false ∧
     (∀ r, reqDone (applySpec st sp) r e.id e.owner = true) := by
   have heq := applySpec_update_eq st sp o c ho hc hcn hconf
@@ -297,14 +302,14 @@ theorem c15_endpoint_removed (e : Ep) (he : e ∈ st.eps) (hown : e.owner = o) (
   have he'' : e' ∈ (applySpec st sp).eps := by rw [heq, f2]; exact he'
   have hI' : Inv (applySpec st sp) := applySpec_inv st sp hI
   have hcan : Sid.ep e.id ∈ (applySpec st sp).cancels := by rw [← hid']; exact hI'.e.gone e' he'' hgone
-  refine ⟨⟨e', he'', hid', hgone⟩, ?_, hcan, done_of_endpoint hcan _ (by simp [Ep.chain_eq]),
-    fun g => done_of_endpoint hcan _ (by simp [Ep.hcChain_eq]), ?_, fun r => done_of_endpoint hcan _ (by simp [reqChain_eq])⟩
-  · intro o2 x hx hid
-    obtain ⟨hxe, _, hxin, _⟩ := mem_pickable hx
-    have : x = e' := hI'.e.eq_of_id hxe he'' (hid.trans hid'.symm)
-    rw [this, hgone] at hxin; cases hxin
-  · have : done (applySpec st sp).cancels (e.hcChain (e.hcGen - 1)) = true := done_of_endpoint hcan _ (by simp [Ep.hcChain_eq])
-    simp [hcLive, this]
+  have hch : done (applySpec st sp).cancels e.chain = true := done_of_endpoint hcan _ (by simp [Ep.chain_eq])
+  refine ⟨⟨e', he'', hid', hgone⟩, ?_, hcan, hch,
+    fun g hg => done_of_endpoint hcan _ (by rw [hI.e.hcChain_eq he hg]; simp), hI.e.hcLive_false he _ hch,
+    fun r => done_of_endpoint hcan _ (by simp [reqChain_eq])⟩
+  intro o2 x hx hid
+  obtain ⟨hxe, _, hxin, _⟩ := mem_pickable hx
+  have : x = e' := hI'.e.eq_of_id hxe he'' (hid.trans hid'.symm)
+  rw [this, hgone] at hxin; cases hxin
 
 /-- forever: after any continuation (including a sync that names the same URL again, which creates a *new*
     endpoint object) the picker never returns the dropped endpoint object and everything below it stays done -/
@@ -336,7 +341,7 @@ theorem c15_endpoint_frame (st : State) (hI : Inv st) (sp : Spec) (e : Ep) (he :
     done (applySpec st sp).cancels e.chain = done st.cancels e.chain ∧
     (∀ r, reqDone (applySpec st sp) r e.id e.owner = reqDone st r e.id e.owner) ∧
     ((st.names (lower sp.name) ≠ some e.owner ∨ disabledOf sp.servers e.url = false) →
-      (∀ g, done (applySpec st sp).cancels (e.hcChain g) = done st.cancels (e.hcChain g)) ∧
+      (∀ g, g < e.hcGen → done (applySpec st sp).cancels (e.hcChain g) = done st.cancels (e.hcChain g)) ∧
       hcLive (applySpec st sp).cancels e = hcLive st.cancels e) := by
   have hsub : ∀ s, s ∈ st.cancels → s ∈ (applySpec st sp).cancels := step_cancels_mono st (.apply sp) hI
   have hcl : ∀ x, Sid.cl x ∈ (applySpec st sp).cancels ↔ Sid.cl x ∈ st.cancels := by
@@ -406,17 +411,23 @@ theorem c15_endpoint_frame (st : State) (hI : Inv st) (sp : Spec) (e : Ep) (he :
         rcases hen with h | h
         · exact htarget_ne o ht h (hown2.symm.trans hown1)
         · rw [hurl2, h] at hdis1; cases hdis1
-    have hd : ∀ g, done (applySpec st sp).cancels (e.hcChain g) = done st.cancels (e.hcChain g) := by
-      intro g
+    have hd : ∀ g, g < e.hcGen → done (applySpec st sp).cancels (e.hcChain g) = done st.cancels (e.hcChain g) := by
+      intro g hg
       apply done_congr
       intro s hs
-      simp only [Ep.hcChain_eq, List.mem_cons, List.not_mem_nil, or_false] at hs
+      rw [hI.e.hcChain_eq he hg] at hs
+      simp only [List.mem_cons, List.not_mem_nil, or_false] at hs
       rcases hs with rfl | rfl | rfl
       · exact hhc g
       · exact hep
       · exact hcl _
     refine ⟨hd, ?_⟩
-    unfold hcLive; rw [hd]
+    unfold hcLive
+    cases hon : e.hcOn with
+    | false => rfl
+    | true =>
+      have hpos := hI.e.hc_pos e he hon
+      rw [hd _ (by omega)]
 
 /-! ## removing an alias -/
 
@@ -526,27 +537,41 @@ theorem c15_pick_only_current (st : State) (r choice eid o : Nat)
       exact ⟨e, a, rfl, b, c, d, f⟩
   · exact absurd hafter hbefore
 
+/-- every health-check loop ever started for an endpoint — the one started when it was added and every one
+    restarted by a disable → re-enable through the update path — runs under a context derived from the ENDPOINT's
+    (the `ctx` each `EnsureGatewayHealthCheck` call site passes is recorded per loop in `hcParent`) -/
+theorem c15_loops_under_endpoint (ops : List Op) (e : Ep) (he : e ∈ (run ops init).eps) (g : Nat) (hg : g < e.hcGen) :
+    e.hcParent g = e.chain ∧ e.hcChain g = [Sid.hc e.id g, Sid.ep e.id, Sid.cl e.owner] :=
+  ⟨(c15_invariant ops).e.hc_parent e he g hg, (c15_invariant ops).e.hcChain_eq he hg⟩
+
 /-- **health probing stops**: in every reachable state, an endpoint whose cluster no name resolves to, or that left
-    the endpoint map, or that is disabled, has no running health-check loop, and a probe round does not touch it -/
+    the endpoint map, or that is disabled, has no running health-check loop; **every loop ever started for it,
+    restarted ones included, is cancelled**; and a probe round does not touch it -/
 theorem c15_probing_stops (ops : List Op) (e : Ep) (he : e ∈ (run ops init).eps)
     (hrem : (∀ k, (run ops init).names k ≠ some e.owner) ∨ e.inMap = false ∨ e.disabled = true) :
     hcLive (run ops init).cancels e = false ∧
+    (∀ g, g < e.hcGen → done (run ops init).cancels (e.hcChain g) = true) ∧
     (∀ u ok, probeEp (run ops init).cancels u ok e = e) := by
   have hI := c15_invariant ops
-  have hdead : hcLive (run ops init).cancels e = false := by
+  have hall : ∀ g, g < e.hcGen → done (run ops init).cancels (e.hcChain g) = true := by
+    intro g hg
+    rw [hI.e.hcChain_eq he hg]
     rcases hrem with h | h | h
     · obtain ⟨c, hc⟩ := hI.o e he
       rcases hI.n.no_leak e.owner c hc with h1 | h1
       · exact absurd h1 (h _)
-      · have : done (run ops init).cancels (e.hcChain (e.hcGen - 1)) = true := done_of_cluster h1 _ (by simp [Ep.hcChain_eq])
-        simp [hcLive, this]
-    · have : done (run ops init).cancels (e.hcChain (e.hcGen - 1)) = true :=
-        done_of_endpoint (hI.e.gone e he h) _ (by simp [Ep.hcChain_eq])
-      simp [hcLive, this]
-    · have := hI.e.hc_sync e he
-      rw [h] at this
-      simp [hcLive, this]
-  refine ⟨hdead, fun u ok => ?_⟩
+      · exact done_of_cluster h1 _ (by simp)
+    · exact done_of_endpoint (hI.e.gone e he h) _ (by simp)
+    · have hoff : e.hcOn = false := by rw [hI.e.hc_sync e he, h]; rfl
+      exact (done_iff _ _).2 ⟨_, List.mem_cons_self .., hI.e.hc_off e he hoff g hg⟩
+  have hdead : hcLive (run ops init).cancels e = false := by
+    unfold hcLive
+    cases hon : e.hcOn with
+    | false => rfl
+    | true =>
+      have hpos := hI.e.hc_pos e he hon
+      rw [hall _ (by omega)]; rfl
+  refine ⟨hdead, hall, fun u ok => ?_⟩
   unfold probeEp
   simp [hdead]
 
@@ -596,6 +621,22 @@ example : (((run (demoOps.take 9) init).heap 0).map fun c =>
     reqDone (run (demoOps.take 9) init) 1 1 0 = false ∧
     reqDone (applySpec (run (demoOps.take 9) init) demoDrop) 1 1 0 = true ∧
     (pickable (applySpec (run (demoOps.take 9) init) demoDrop) 0).map (·.id) = [2] := by decide
+
+/-- restarted loops: u0 of `a` is disabled, re-enabled (second loop, started through the update path), then dropped:
+    both loops ever started ran under the endpoint's context and both are done; u1 is still probed -/
+def demoCycle : List Op :=
+  [ .apply { name := nA, aliases := [], servers := [(u0, false), (u1, false)] }, .health u0 true, .health u1 true,
+    .apply { name := nA, aliases := [], servers := [(u0, true), (u1, false)] },
+    .apply { name := nA, aliases := [], servers := [(u0, false), (u1, false)] },
+    .apply { name := nA, aliases := [], servers := [(u1, false)] } ]
+
+example : ((run (demoCycle.take 5) init).eps.map fun e => [e.id, e.hcGen, (hcLive (run (demoCycle.take 5) init).cancels e).toNat])
+            = [[1, 2, 1], [2, 1, 1]] := by decide
+
+example : ((run demoCycle init).eps.map fun e =>
+              [e.id, e.inMap.toNat, e.hcGen, (hcLive (run demoCycle init).cancels e).toNat] ++
+               (List.range e.hcGen).flatMap fun g => [(e.hcParent g == e.chain).toNat, (done (run demoCycle init).cancels (e.hcChain g)).toNat])
+            = [[1, 0, 2, 0, 1, 1, 1, 1], [2, 1, 1, 1, 1, 0]] := by decide
 
 /-- and of the alias theorems: dropping the alias `X` with the same servers -/
 def demoAlias : Spec := { name := nA, aliases := [], servers := [(u0, false), (u1, false)] }
